@@ -23,6 +23,22 @@ class CallMixin:
 
     def get_attr(self, v, attr, st):
         import enum as _enum
+        if attr == "__class__":
+            if isinstance(v, Ref):
+                o = st.deref(v)
+                if isinstance(o, ListV):
+                    return ClassV("list")
+                if isinstance(o, DictV):
+                    return ClassV("dict")
+                if isinstance(o, ObjV):
+                    return ClassV(o.cls)
+            if isinstance(v, Sym) and v.tag in CLASS_OF_TAG:
+                return ClassV(CLASS_OF_TAG[v.tag])
+            if isinstance(v, (str, int, tuple)) and not isinstance(v, bool):
+                return ClassV(type(v).__name__)
+            raise Unsupported(f"__class__ of {v!r}")
+        if attr == "__name__" and isinstance(v, ClassV):
+            return v.name
         if isinstance(v, type) and issubclass(v, _enum.Enum):
             return getattr(v, attr)
         if isinstance(v, SliceV):
@@ -864,6 +880,14 @@ class CallMixin:
             else:
                 cv = cond(a)
             if cv is False:
+                continue
+            if getattr(self, "_collect_raises", None) is not None:
+                # element of a comprehension (loops.materialize_general): the condition is recorded, evaluation continues on the
+                # not-raising side
+                self._collect_raises.append((exc, cv if not isinstance(cv, bool) else z3.BoolVal(cv)))
+                if cv is True:
+                    raise Unsupported("comprehension element always raises")
+                st.assume(z3.Not(cv))
                 continue
             if self.decide(cv, st):
                 raise PyRaise(exc, note=f"raised by callee {c.qualname}")
